@@ -145,7 +145,7 @@ def starts(rng):
     out.append(('Mesh2D.from_grid', lambda: Mesh2D.from_grid(P2(gb), gnx, gny, gdx, gdy)))
     cv = G.convex_polygon(rng, n=5, R=10.0)
     out.append(('Mesh2D.from_polygon_grid', lambda: Mesh2D.from_polygon_grid(Polygon2D([P2(p) for p in cv]), 3.0, 3.0, False)))
-    frame = G.rational_frame(rng); o = G.rpt3(rng, 20)
+    frame = G.rational_frame(rng, special=False); o = G.rpt3(rng, 20)      # tilted: face normals are not along an axis
     out.append(('Mesh3D', lambda: Mesh3D([P3(G.embed(frame, o, p)) for p in v], f)))
     f0 = Bd.face3d(rng, nholes=0, n=5); f0d = f0.to_dict()
     out.append(('Face3D', lambda: Face3D.from_dict(f0d)))
